@@ -483,13 +483,13 @@ structure Graph.WF (g : Graph) : Prop where
 theorem Graph.wf_of_wfb (g : Graph) (h : g.wfb = true) : g.WF := by
   simp only [Graph.wfb, Bool.and_eq_true, beq_iff_eq, List.all_eq_true, decide_eq_true_eq,
     List.mem_range] at h
-  obtain ⟨⟨⟨⟨⟨h1, h2⟩, h3⟩, h4⟩, h5⟩, h6⟩ := h
+  obtain ⟨⟨⟨h3, h4⟩, h5⟩, h6⟩ := h
   refine ⟨?_, ?_, ?_, ?_⟩
   · intro e s d he
     have hm : (s, d) ∈ g.edges.toList := Array.mem_toList_iff.2 (Array.mem_of_getElem? he)
     exact h3 _ hm
   · intro v e he
-    by_cases hv : v < g.n
+    by_cases hv : v < g.adj.size
     · exact h4 v hv e he
     · have : g.outEdges v = [] := by
         unfold Graph.outEdges
@@ -498,7 +498,7 @@ theorem Graph.wf_of_wfb (g : Graph) (h : g.wfb = true) : g.WF := by
       rw [this] at he
       exact absurd he List.not_mem_nil
   · intro v e he
-    by_cases hv : v < g.n
+    by_cases hv : v < g.rev.size
     · exact h5 v hv e he
     · have : g.inEdges v = [] := by
         unfold Graph.inEdges
@@ -795,16 +795,17 @@ theorem ofEdges_wfb (n : Nat) (es : List (Nat × Nat)) (h : ∀ p ∈ es, p.1 < 
     (Graph.ofEdges n es).wfb = true := by
   simp only [Graph.wfb, Bool.and_eq_true, beq_iff_eq, List.all_eq_true, decide_eq_true_eq,
     List.mem_range]
-  refine ⟨⟨⟨⟨⟨?_, ?_⟩, ?_⟩, ?_⟩, ?_⟩, ?_⟩
-  · simp [Graph.ofEdges]
-  · simp [Graph.ofEdges]
+  have hadj : (Graph.ofEdges n es).adj.size = n := by simp [Graph.ofEdges]
+  have hrev : (Graph.ofEdges n es).rev.size = n := by simp [Graph.ofEdges]
+  refine ⟨⟨⟨?_, ?_⟩, ?_⟩, ?_⟩
   · intro p hp
     exact h p (by simpa [Graph.ofEdges] using hp)
   · intro v hv e he
-    have hv' : v < (Graph.ofEdges n es).n := hv
+    rw [hadj] at hv
     rw [ofEdges_outEdges n es v hv] at he
     simpa [Graph.srcOf, Graph.ofEdges] using (List.mem_filter.1 he).2
   · intro v hv e he
+    rw [hrev] at hv
     rw [ofEdges_inEdges n es v hv] at he
     simpa [Graph.dstOf, Graph.ofEdges] using (List.mem_filter.1 he).2
   · intro e he
@@ -938,10 +939,6 @@ theorem dfsG_term {U : List Nat} {inc : Nat → List Nat} {far : Nat → Option 
         · exact Or.inr hv
         · exact hst1 x hx
 
-/-- the universe of vertex ids of a graph value -/
-def Graph.universe (g : Graph) : List Nat :=
-  List.range g.n ++ g.edges.toList.map (·.1) ++ g.edges.toList.map (·.2)
-
 theorem universe_length (g : Graph) : g.universe.length = g.fuel := by
   simp [Graph.universe, Graph.fuel]
   omega
@@ -1009,6 +1006,433 @@ theorem allScc_ne_diverges (g : Graph) : allScc g ≠ .error .diverges := by
       have := (hok vis1 st1 (by unfold pass1 dfs at hr; exact hr)).2 x hx
       simpa using this
     simpa [allScc, hr] using pass2_term g st1 [] [] hst
+
+/-! ### the frame-list searches (the code since /repo 1dee70f) compute what the recursive ones compute -/
+
+section Iter
+variable {inc : Nat → List Nat} {far : Nat → Option Nat}
+
+theorem iterLoop_nil (f : Nat) (s : St) : iterLoop inc far f [] s = .ok s := by
+  cases f <;> rfl
+
+/-- from configuration `c` the loop arrives, after some turns, at configuration `c'` -/
+def Reaches (inc : Nat → List Nat) (far : Nat → Option Nat) (c c' : List Frame × St) : Prop :=
+  ∃ k, ∀ f, iterLoop inc far (f + k) c.1 c.2 = iterLoop inc far f c'.1 c'.2
+
+/-- from configuration `c` the loop ends, after some turns, with the error `x` -/
+def Fails (inc : Nat → List Nat) (far : Nat → Option Nat) (c : List Frame × St) (x : Err) : Prop :=
+  ∃ k, ∀ f, iterLoop inc far (f + k) c.1 c.2 = .error x
+
+theorem Reaches.refl (c : List Frame × St) : Reaches inc far c c := ⟨0, fun _ => rfl⟩
+
+theorem Reaches.trans {c1 c2 c3 : List Frame × St} (h1 : Reaches inc far c1 c2) (h2 : Reaches inc far c2 c3) :
+    Reaches inc far c1 c3 := by
+  obtain ⟨k1, h1⟩ := h1
+  obtain ⟨k2, h2⟩ := h2
+  refine ⟨k2 + k1, fun f => ?_⟩
+  rw [← Nat.add_assoc, h1, h2]
+
+theorem Reaches.fails {c1 c2 : List Frame × St} {x : Err} (h1 : Reaches inc far c1 c2) (h2 : Fails inc far c2 x) :
+    Fails inc far c1 x := by
+  obtain ⟨k1, h1⟩ := h1
+  obtain ⟨k2, h2⟩ := h2
+  refine ⟨k2 + k1, fun f => ?_⟩
+  rw [← Nat.add_assoc, h1, h2]
+
+theorem turn_pop (v : Nat) (fr : List Frame) (vis st : List Nat) :
+    Reaches inc far ((v, []) :: fr, (vis, st)) (fr, (vis, v :: st)) :=
+  ⟨1, fun _ => rfl⟩
+
+theorem turn_visited {e w : Nat} (v : Nat) (es : List Nat) (fr : List Frame) {vis : List Nat} (st : List Nat)
+    (hw : far e = some w) (hvis : w ∈ vis) :
+    Reaches inc far ((v, e :: es) :: fr, (vis, st)) ((v, es) :: fr, (vis, st)) := by
+  refine ⟨1, fun f => ?_⟩
+  simp [iterLoop, hw, hvis]
+
+theorem turn_new {e w : Nat} (v : Nat) (es : List Nat) (fr : List Frame) {vis : List Nat} (st : List Nat)
+    (hw : far e = some w) (hvis : w ∉ vis) :
+    Reaches inc far ((v, e :: es) :: fr, (vis, st)) ((w, inc w) :: (v, es) :: fr, (w :: vis, st)) := by
+  refine ⟨1, fun f => ?_⟩
+  simp [iterLoop, hw, hvis]
+
+theorem turn_missing {e : Nat} (v : Nat) (es : List Nat) (fr : List Frame) (s : St) (hw : far e = none) :
+    Fails inc far ((v, e :: es) :: fr, s) .edgeNotFound := by
+  refine ⟨1, fun f => ?_⟩
+  obtain ⟨vis, st⟩ := s
+  simp [iterLoop, hw]
+
+/-- the loop simulates the `for edge in edges { … }` of the recursive formulation -/
+def SimList (inc : Nat → List Nat) (far : Nat → Option Nat) (v : Nat) (es : List Nat) (fr : List Frame) (s : St) :
+    Except Err St → Prop
+  | .ok s' => Reaches inc far ((v, es) :: fr, s) ((v, []) :: fr, s')
+  | .error x => Fails inc far ((v, es) :: fr, s) x
+
+/-- the loop simulates one recursive call on an unvisited vertex -/
+def SimCall (inc : Nat → List Nat) (far : Nat → Option Nat) (w : Nat) (fr : List Frame) (vis st : List Nat) :
+    Except Err St → Prop
+  | .ok s' => Reaches inc far ((w, inc w) :: fr, (w :: vis, st)) (fr, s')
+  | .error x => Fails inc far ((w, inc w) :: fr, (w :: vis, st)) x
+
+theorem dfsG_visited (n w : Nat) {vis : List Nat} (st : List Nat) (h : w ∈ vis) :
+    dfsG inc far n w (vis, st) = .ok (vis, st) := by
+  cases n <;> simp [dfsG, h]
+
+theorem sim_list_of_call (n : Nat)
+    (hD : ∀ w fr vis st, w ∉ vis → dfsG inc far n w (vis, st) ≠ .error .diverges →
+      SimCall inc far w fr vis st (dfsG inc far n w (vis, st))) :
+    ∀ es v fr s, forEach (dfsG inc far n) far es s ≠ .error .diverges →
+      SimList inc far v es fr s (forEach (dfsG inc far n) far es s) := by
+  intro es
+  induction es with
+  | nil =>
+    intro v fr s _
+    simp only [forEach, SimList]
+    exact Reaches.refl _
+  | cons e es ih =>
+    intro v fr s hnd
+    obtain ⟨vis, st⟩ := s
+    cases hw : far e with
+    | none =>
+      simp only [forEach, hw, SimList]
+      exact turn_missing v es fr _ hw
+    | some w =>
+      by_cases hvis : w ∈ vis
+      · have hcall := dfsG_visited (inc := inc) (far := far) n w st hvis
+        have heq : forEach (dfsG inc far n) far (e :: es) (vis, st) = forEach (dfsG inc far n) far es (vis, st) := by
+          simp [forEach, hw, hcall]
+        rw [heq] at hnd ⊢
+        have h2 := ih v fr (vis, st) hnd
+        cases hr : forEach (dfsG inc far n) far es (vis, st) with
+        | error x =>
+          rw [hr] at h2
+          exact (turn_visited v es fr st hw hvis).fails h2
+        | ok s' =>
+          rw [hr] at h2
+          exact (turn_visited v es fr st hw hvis).trans h2
+      · cases hcall : dfsG inc far n w (vis, st) with
+        | error x =>
+          have heq : forEach (dfsG inc far n) far (e :: es) (vis, st) = .error x := by
+            simp [forEach, hw, hcall]
+          rw [heq] at hnd ⊢
+          have h1 := hD w ((v, es) :: fr) vis st hvis (by rw [hcall]; exact hnd)
+          rw [hcall] at h1
+          exact (turn_new v es fr st hw hvis).fails h1
+        | ok s1 =>
+          have heq : forEach (dfsG inc far n) far (e :: es) (vis, st) = forEach (dfsG inc far n) far es s1 := by
+            simp [forEach, hw, hcall]
+          rw [heq] at hnd ⊢
+          have h1 := hD w ((v, es) :: fr) vis st hvis (by rw [hcall]; simp)
+          rw [hcall] at h1
+          have h2 := ih v fr s1 hnd
+          cases hr : forEach (dfsG inc far n) far es s1 with
+          | error x =>
+            rw [hr] at h2
+            exact ((turn_new v es fr st hw hvis).trans h1).fails h2
+          | ok s' =>
+            rw [hr] at h2
+            exact ((turn_new v es fr st hw hvis).trans h1).trans h2
+
+theorem sim_call_succ (n : Nat)
+    (hS : ∀ es v fr s, forEach (dfsG inc far n) far es s ≠ .error .diverges →
+      SimList inc far v es fr s (forEach (dfsG inc far n) far es s)) :
+    ∀ w fr vis st, w ∉ vis → dfsG inc far (n + 1) w (vis, st) ≠ .error .diverges →
+      SimCall inc far w fr vis st (dfsG inc far (n + 1) w (vis, st)) := by
+  intro w fr vis st hvis hnd
+  cases hr : forEach (dfsG inc far n) far (inc w) (w :: vis, st) with
+  | error x =>
+    have heq : dfsG inc far (n + 1) w (vis, st) = .error x := by simp [dfsG, hvis, hr]
+    rw [heq] at hnd ⊢
+    have h1 := hS (inc w) w fr (w :: vis, st) (by rw [hr]; exact hnd)
+    rw [hr] at h1
+    exact h1
+  | ok s1 =>
+    obtain ⟨vis', st'⟩ := s1
+    have heq : dfsG inc far (n + 1) w (vis, st) = .ok (vis', w :: st') := by simp [dfsG, hvis, hr]
+    rw [heq]
+    have h1 := hS (inc w) w fr (w :: vis, st) (by rw [hr]; simp)
+    rw [hr] at h1
+    exact h1.trans (turn_pop w fr vis' st')
+
+theorem sim_call : ∀ n w fr vis st, w ∉ vis → dfsG inc far n w (vis, st) ≠ .error .diverges →
+    SimCall inc far w fr vis st (dfsG inc far n w (vis, st)) := by
+  intro n
+  induction n with
+  | zero =>
+    intro w fr vis st hvis hnd
+    exact absurd (by simp [dfsG, hvis]) hnd
+  | succ n ih => exact sim_call_succ n (sim_list_of_call n ih)
+
+/-- a result of the loop that is not `diverges` does not depend on how much fuel was left over -/
+theorem iterLoop_mono : ∀ f d fr s, iterLoop inc far f fr s ≠ .error .diverges →
+    iterLoop inc far (f + d) fr s = iterLoop inc far f fr s := by
+  intro f
+  induction f with
+  | zero =>
+    intro d fr s h
+    cases fr with
+    | nil => rw [iterLoop_nil, iterLoop_nil]
+    | cons a fr => exact absurd rfl h
+  | succ f ih =>
+    intro d fr s h
+    obtain ⟨vis, st⟩ := s
+    have hfd : f + 1 + d = (f + d) + 1 := by omega
+    rw [hfd]
+    cases fr with
+    | nil => rw [iterLoop_nil, iterLoop_nil]
+    | cons a fr =>
+      obtain ⟨v, es⟩ := a
+      cases es with
+      | nil =>
+        simp only [iterLoop] at h ⊢
+        exact ih d fr _ h
+      | cons e es =>
+        cases hw : far e with
+        | none => simp [iterLoop, hw]
+        | some w =>
+          by_cases hvis : w ∈ vis
+          · simp only [iterLoop, hw, List.contains_iff_mem.2 hvis, if_true] at h ⊢
+            exact ih d _ _ h
+          · have hc : vis.contains w = false := by simpa using hvis
+            simp only [iterLoop, hw, hc, Bool.false_eq_true, if_false] at h ⊢
+            exact ih d _ _ h
+
+/-! #### the loop ends within its budget of turns -/
+
+/-- turns still owed to the vertices of `U` not yet visited -/
+def owed (inc : Nat → List Nat) (U vis : List Nat) : Nat :=
+  ((U.filter (fun u => !vis.contains u)).map (fun u => (inc u).length + 1)).sum
+
+/-- turns still owed to the frames -/
+def frameTurns (fr : List Frame) : Nat := (fr.map (fun p => p.2.length + 1)).sum
+
+theorem owed_cons (inc : Nat → List Nat) (U vis : List Nat) (w : Nat) :
+    owed inc U (w :: vis) ≤ owed inc U vis ∧
+    (w ∈ U → w ∉ vis → owed inc U (w :: vis) + ((inc w).length + 1) ≤ owed inc U vis) := by
+  induction U with
+  | nil => simp [owed]
+  | cons a U ih =>
+    unfold owed at ih ⊢
+    by_cases haw : a = w
+    · subst haw
+      by_cases hvis : a ∈ vis
+      · have h1 : (!(a :: vis).contains a) = false := by simp
+        have h2 : (!vis.contains a) = false := by simp [hvis]
+        simp only [List.filter_cons, h1, h2, Bool.false_eq_true, if_false]
+        refine ⟨ih.1, fun _ hn => absurd hvis hn⟩
+      · have h1 : (!(a :: vis).contains a) = false := by simp
+        have h2 : (!vis.contains a) = true := by simp [hvis]
+        simp only [List.filter_cons, h1, h2, Bool.false_eq_true, if_false, if_true, List.map_cons,
+          List.sum_cons]
+        have := ih.1
+        refine ⟨by omega, fun _ _ => by omega⟩
+    · have h1 : (!(w :: vis).contains a) = (!vis.contains a) := by
+        simp [haw]
+      simp only [List.filter_cons, h1]
+      by_cases hav : (!vis.contains a) = true
+      · simp only [hav, if_true, List.map_cons, List.sum_cons]
+        refine ⟨by have := ih.1; omega, fun hm hn => ?_⟩
+        have hm' : w ∈ U := by
+          rcases List.mem_cons.1 hm with h | h
+          · exact absurd h.symm haw
+          · exact h
+        have := ih.2 hm' hn
+        omega
+      · simp only [hav, if_false]
+        refine ⟨ih.1, fun hm hn => ?_⟩
+        have hm' : w ∈ U := by
+          rcases List.mem_cons.1 hm with h | h
+          · exact absurd h.symm haw
+          · exact h
+        exact ih.2 hm' hn
+
+theorem owed_le (inc : Nat → List Nat) (U vis : List Nat) :
+    owed inc U vis ≤ (U.map (fun u => (inc u).length + 1)).sum := by
+  induction U with
+  | nil => simp [owed]
+  | cons a U ih =>
+    unfold owed at ih ⊢
+    simp only [List.filter_cons, List.map_cons, List.sum_cons]
+    split
+    · simp only [List.map_cons, List.sum_cons]; omega
+    · omega
+
+/-- with at least `owed + frameTurns` turns of fuel the loop does not report `diverges` -/
+theorem iterLoop_ne_diverges {U : List Nat} (hU : ∀ e w, far e = some w → w ∈ U) :
+    ∀ f fr vis st, owed inc U vis + frameTurns fr ≤ f → iterLoop inc far f fr (vis, st) ≠ .error .diverges := by
+  intro f
+  induction f with
+  | zero =>
+    intro fr vis st h
+    cases fr with
+    | nil => simp [iterLoop]
+    | cons a fr =>
+      simp [frameTurns] at h
+  | succ f ih =>
+    intro fr vis st h
+    cases fr with
+    | nil => simp [iterLoop]
+    | cons a fr =>
+      obtain ⟨v, es⟩ := a
+      cases es with
+      | nil =>
+        simp only [iterLoop]
+        apply ih
+        simp only [frameTurns, List.map_cons, List.sum_cons, List.length_nil] at h ⊢
+        omega
+      | cons e es =>
+        cases hw : far e with
+        | none => simp [iterLoop, hw]
+        | some w =>
+          by_cases hvis : w ∈ vis
+          · simp only [iterLoop, hw, List.contains_iff_mem.2 hvis, if_true]
+            apply ih
+            simp only [frameTurns, List.map_cons, List.sum_cons, List.length_cons] at h ⊢
+            omega
+          · have hc : vis.contains w = false := by simpa using hvis
+            simp only [iterLoop, hw, hc, Bool.false_eq_true, if_false]
+            apply ih
+            have := (owed_cons inc U vis w).2 (hU e w hw) hvis
+            simp only [frameTurns, List.map_cons, List.sum_cons, List.length_cons] at h ⊢
+            omega
+
+/-- the frame-list search returns what the recursive search returns, whenever the latter does not run out of
+(depth) fuel and the former has its budget of turns -/
+theorem dfsIter_eq {U : List Nat} (hU : ∀ e w, far e = some w → w ∈ U) (n T v : Nat) (vis st : List Nat)
+    (hv : v ∈ U) (hnd : dfsG inc far n v (vis, st) ≠ .error .diverges)
+    (hT : (U.map (fun u => (inc u).length + 1)).sum ≤ T) :
+    dfsIter inc far T v (vis, st) = dfsG inc far n v (vis, st) := by
+  by_cases hvis : v ∈ vis
+  · rw [dfsG_visited n v st hvis]
+    simp [dfsIter, hvis]
+  · have hI : dfsIter inc far T v (vis, st) = iterLoop inc far T [(v, inc v)] (v :: vis, st) := by
+      simp [dfsIter, hvis]
+    rw [hI]
+    -- the budget suffices
+    have hbud : owed inc U (v :: vis) + frameTurns [(v, inc v)] ≤ T := by
+      have h1 := (owed_cons inc U vis v).2 hv hvis
+      have h2 := owed_le inc U vis
+      simp only [frameTurns, List.map_cons, List.map_nil, List.sum_cons, List.sum_nil]
+      omega
+    have hTnd := iterLoop_ne_diverges (inc := inc) hU T [(v, inc v)] (v :: vis) st hbud
+    have hsim := sim_call (inc := inc) (far := far) n v [] vis st hvis hnd
+    -- compare at a common amount of fuel
+    cases hr : dfsG inc far n v (vis, st) with
+    | error x =>
+      rw [hr] at hsim
+      obtain ⟨k, hk⟩ := hsim
+      have h1 := hk T
+      have h2 := iterLoop_mono (inc := inc) (far := far) T k [(v, inc v)] (v :: vis, st) hTnd
+      simp only at h1
+      rw [← h2, h1]
+    | ok s' =>
+      rw [hr] at hsim
+      obtain ⟨k, hk⟩ := hsim
+      have h1 := hk T
+      have h2 := iterLoop_mono (inc := inc) (far := far) T k [(v, inc v)] (v :: vis, st) hTnd
+      simp only at h1
+      rw [← h2, h1, iterLoop_nil]
+
+end Iter
+
+/-! #### … hence the two passes over the frame-list searches are the two passes over the recursive ones -/
+
+theorem sum_map_le {β : Type} (f h : β → Nat) (l : List β) (hle : ∀ x, f x ≤ h x) :
+    (l.map f).sum ≤ (l.map h).sum := by
+  induction l with
+  | nil => simp
+  | cons a l ih =>
+    simp only [List.map_cons, List.sum_cons]
+    have := hle a
+    omega
+
+theorem dfsI_eq (g : Graph) (v : Nat) (hv : v ∈ g.universe) (vis st : List Nat) :
+    dfsI g v (vis, st) = dfs g g.fuel v (vis, st) := by
+  have hT := dfsG_term (U := g.universe) (inc := g.outEdges) (far := g.dstOf)
+    (fun _ e _ w hw => dstOf_mem_universe g e w hw) g.fuel
+  have hnd := (hT v vis st hv (by rw [← universe_length]; exact cnt_le _ _)).1
+  exact dfsIter_eq (U := g.universe) (fun e w hw => dstOf_mem_universe g e w hw) g.fuel g.turns v vis st hv hnd
+    (sum_map_le _ _ _ (fun u => by omega))
+
+theorem rdfsI_eq (g : Graph) (v : Nat) (hv : v ∈ g.universe) (vis st : List Nat) :
+    rdfsI g v (vis, st) = rdfs g g.fuel v (vis, st) := by
+  have hT := dfsG_term (U := g.universe) (inc := g.inEdges) (far := g.srcOf)
+    (fun _ e _ w hw => srcOf_mem_universe g e w hw) g.fuel
+  have hnd := (hT v vis st hv (by rw [← universe_length]; exact cnt_le _ _)).1
+  exact dfsIter_eq (U := g.universe) (fun e w hw => srcOf_mem_universe g e w hw) g.fuel g.turns v vis st hv hnd
+    (sum_map_le _ _ _ (fun u => by omega))
+
+theorem forEach_congr {rec1 rec2 : Nat → St → Except Err St} (U : List Nat)
+    (h : ∀ w s, w ∈ U → rec1 w s = rec2 w s) (far : Nat → Option Nat) :
+    ∀ xs s, (∀ x ∈ xs, ∀ w, far x = some w → w ∈ U) → forEach rec1 far xs s = forEach rec2 far xs s := by
+  intro xs
+  induction xs with
+  | nil => intro s _; rfl
+  | cons e es ih =>
+    intro s hxs
+    cases hw : far e with
+    | none => simp [forEach, hw]
+    | some w =>
+      have hwU := hxs e List.mem_cons_self w hw
+      simp only [forEach, hw, h w s hwU]
+      cases rec2 w s with
+      | error x => rfl
+      | ok s' => exact ih s' (fun x hx => hxs x (List.mem_cons_of_mem _ hx))
+
+theorem pass1T_eq (g : Graph) : pass1T g g.turns = pass1 g := by
+  unfold pass1T pass1
+  apply forEach_congr g.universe (fun w s hw => by obtain ⟨vis, st⟩ := s; exact dfsI_eq g w hw vis st)
+  intro x hx w hw
+  simp only [Option.some.injEq] at hw
+  subst hw
+  exact List.mem_append_left _ (List.mem_append_left _ hx)
+
+theorem pass2T_eq (g : Graph) :
+    ∀ st vis acc, (∀ x ∈ st, x ∈ g.universe) → pass2T g g.turns st vis acc = pass2 g st vis acc := by
+  intro st
+  induction st with
+  | nil => intro vis acc _; rfl
+  | cons v st ih =>
+    intro vis acc hst
+    have hst' : ∀ x ∈ st, x ∈ g.universe := fun x hx => hst x (List.mem_cons_of_mem _ hx)
+    by_cases hvis : v ∈ vis
+    · simp only [pass2T, pass2, List.contains_iff_mem.2 hvis, if_true]
+      exact ih vis acc hst'
+    · have hc : vis.contains v = false := by simpa using hvis
+      have hcall : rdfsT g g.turns v (vis, []) = rdfs g g.fuel v (vis, []) :=
+        rdfsI_eq g v (hst v List.mem_cons_self) vis []
+      simp only [pass2T, pass2, hc, Bool.false_eq_true, if_false, hcall]
+      cases rdfs g g.fuel v (vis, []) with
+      | error x => rfl
+      | ok s1 =>
+        obtain ⟨vis1, comp⟩ := s1
+        exact ih vis1 (comp.reverse :: acc) hst'
+
+/-- the model of the code as it is (frame lists) and the recursive model agree on every `Graph` value -/
+theorem allSccIter_eq (g : Graph) : allSccIter g = allScc g := by
+  unfold allSccIter allScc
+  simp only
+  rw [pass1T_eq]
+  cases hr : pass1 g with
+  | error x => rfl
+  | ok s1 =>
+    obtain ⟨vis1, st1⟩ := s1
+    have hT := dfsG_term (U := g.universe) (inc := g.outEdges) (far := g.dstOf)
+      (fun _ e _ w hw => dstOf_mem_universe g e w hw) g.fuel
+    obtain ⟨_, hok⟩ := forEach_term hT some (List.range g.n) [] []
+      (fun x hx w hw => by
+        simp only [Option.some.injEq] at hw
+        subst hw
+        exact List.mem_append_left _ (List.mem_append_left _ hx))
+      (by rw [← universe_length]; exact cnt_le _ _)
+    have hst : ∀ x ∈ st1, x ∈ g.universe := by
+      intro x hx
+      have := (hok vis1 st1 (by unfold pass1 dfs at hr; exact hr)).2 x hx
+      simpa using this
+    exact pass2T_eq g st1 [] [] hst
+
+theorem largestSccIter_eq (g : Graph) : largestSccIter g = largestScc g := by
+  unfold largestSccIter largestScc
+  rw [allSccIter_eq]
 
 /-! ### the specification as one predicate, and the executable checker -/
 
